@@ -219,9 +219,15 @@ Section Codec.
   Variable dec : codec -> stream -> dres.
   Variable cdec : N -> stream -> dres.
 
+  (* Up to [full chain] below, [client] is the chain up to and including the compressing round tripper
+     ([client_rt]) and [e2e] its composition with the server; the lemmas about the whole chain (with
+     the headers round tripper and the receiver's canonicalisation of header keys) follow. *)
+  Definition e2e_rt (cc : ccfg) (sc : scfg) (r : creq) : option sout :=
+    match Model.client_rt enc cc r with CSent w => Some (Model.server dec cdec sc w) | _ => None end.
+
   Local Notation server := (server dec cdec).
-  Local Notation client := (client enc).
-  Local Notation e2e := (e2e enc dec cdec).
+  Local Notation client := (client_rt enc).
+  Local Notation e2e := e2e_rt.
 
   (* ---- the limit: for EVERY request and EVERY behaviour of the decoders ---------------------------- *)
   Lemma limit_holds_l sc w ce cl s :
@@ -240,7 +246,7 @@ Section Codec.
   Lemma limit_holds_e2e_l cc sc r ce cl s :
     e2e cc sc r = Some (Handled ce cl s) -> (Z.of_nat (List.length (fst s)) <= eff_max sc)%Z.
   Proof.
-    unfold Model.e2e. destruct (client cc r) as [| |w]; try discriminate.
+    unfold e2e_rt. destruct (client cc r) as [| |w]; try discriminate.
     intros [= H]. exact (limit_holds_l sc w ce cl s H).
   Qed.
 
@@ -381,13 +387,13 @@ Section Codec.
 
   Lemma identity_client_l cc r :
     is_compressed cc.(c_type) = false -> client cc r = CSent (plain r).
-  Proof. intros H. unfold Model.client, client_validate. now rewrite H. Qed.
+  Proof. intros H. unfold Model.client_rt, client_validate. now rewrite H. Qed.
 
   (* ---- the client --------------------------------------------------------------------------------- *)
   Lemma preset_not_recompressed_l cc r w :
     hget r.(q_ce) <> s_empty -> client cc r = CSent w -> w = plain r.
   Proof.
-    intros Hp. unfold Model.client.
+    intros Hp. unfold Model.client_rt.
     destruct (client_validate cc); simpl; [|discriminate].
     destruct (is_compressed (c_type cc)); [|now intros [= <-]].
     destruct (writer_codec (c_type cc)); [|discriminate].
@@ -399,7 +405,7 @@ Section Codec.
   Lemma preset_sent_l cc r :
     hget r.(q_ce) <> s_empty -> client cc r = CRefused \/ client cc r = CSent (plain r).
   Proof.
-    intros Hp. unfold Model.client.
+    intros Hp. unfold Model.client_rt.
     destruct (client_validate cc); simpl; [|now left].
     destruct (is_compressed (c_type cc)); [|now right].
     destruct (writer_codec (c_type cc)); [|now left].
@@ -412,7 +418,7 @@ Section Codec.
     let buf := enc c (writer_level c (effective_level cc.(c_level))) (body_bytes r.(q_body)) in
     client cc r = CSent {| w_ce := r.(q_ce) ++ [cc.(c_type)]; w_body := buf; w_cl := blen buf; w_rewind := Some buf |}.
   Proof.
-    intros Hv Hc Hw He Hb. unfold Model.client. rewrite Hv, Hc, Hw. simpl.
+    intros Hv Hc Hw He Hb. unfold Model.client_rt. rewrite Hv, Hc, Hw. simpl.
     unfold round_trip. rewrite He. simpl. unfold compress. unfold body_ok in Hb.
     destruct (q_body r); simpl; [|reflexivity].
     apply andb_true_iff in Hb. destruct Hb as [H1 H2].
@@ -424,7 +430,7 @@ Section Codec.
     client_validate cc = true -> is_compressed cc.(c_type) = true -> writer_codec cc.(c_type) = Some c ->
     hget r.(q_ce) = s_empty -> body_ok r = false -> client cc r = CError.
   Proof.
-    intros Hv Hc Hw He Hb. unfold Model.client. rewrite Hv, Hc, Hw. simpl.
+    intros Hv Hc Hw He Hb. unfold Model.client_rt. rewrite Hv, Hc, Hw. simpl.
     unfold round_trip. rewrite He. simpl. unfold compress. unfold body_ok in Hb.
     destruct (q_body r); [|discriminate].
     destruct (q_rerr r); [reflexivity|]. destruct (q_cerr r); [reflexivity|discriminate].
@@ -439,7 +445,7 @@ Section Codec.
     assert (P : forall r w', replay (plain r) = Some w' -> w' = plain r).
     { intros r0 w0. unfold replay, plain. simpl. destruct (q_body r0) as [b|]; [|discriminate].
       destruct (q_stream r0); [discriminate|]. simpl. now intros [= <-]. }
-    unfold Model.client.
+    unfold Model.client_rt.
     destruct (client_validate cc); simpl; [|discriminate].
     destruct (is_compressed (c_type cc)); [|intros [= <-]; apply P].
     destruct (writer_codec (c_type cc)) as [c|]; [|discriminate].
@@ -453,7 +459,7 @@ Section Codec.
     client_validate cc = true -> is_compressed cc.(c_type) = true -> writer_codec cc.(c_type) = Some c ->
     hget r.(q_ce) = s_empty -> client cc r = CSent w -> replay w = Some w.
   Proof.
-    intros Hv Hc Hw He. unfold Model.client. rewrite Hv, Hc, Hw. simpl.
+    intros Hv Hc Hw He. unfold Model.client_rt. rewrite Hv, Hc, Hw. simpl.
     unfold round_trip. rewrite He. simpl. destruct (compress enc c _ r) as [buf|]; [|discriminate].
     intros [= <-]. reflexivity.
   Qed.
@@ -472,7 +478,7 @@ Section Codec.
     e2e cc sc r = Some (Handled [] (-1) (b, E_EOF)).
   Proof.
     intros Hv Hc Hw Hce Hok Hin Hcu b wire Hb Hwire.
-    unfold Model.e2e. rewrite (client_compresses_l cc r c Hv Hc Hw) by (try rewrite Hce; auto).
+    unfold e2e_rt. rewrite (client_compresses_l cc r c Hv Hc Hw) by (try rewrite Hce; auto).
     simpl. f_equal. unfold Model.server. rewrite Hce. simpl w_ce. simpl w_body.
     change (hget [c_type cc]) with (c_type cc).
     rewrite tget_decoders. apply clookup_none in Hcu. rewrite Hcu.
@@ -498,7 +504,7 @@ Section Codec.
     assert (He : hget (q_ce r) = s_empty) by (rewrite Hce; reflexivity).
     pose proof (client_compresses_l cc r c Hv Hc Hw He Hok) as CL. cbv zeta in CL.
     eexists. split; [exact CL|]. split; [reflexivity|].
-    unfold Model.e2e in RT. rewrite CL in RT. now injection RT.
+    unfold e2e_rt in RT. rewrite CL in RT. now injection RT.
   Qed.
 
   (* default server settings (nil algorithm list, no custom decoders): every compressing type a
@@ -532,9 +538,185 @@ Section Codec.
     (Z.of_nat (List.length b) <= eff_max sc)%Z ->
     e2e cc sc r = Some (Handled r.(q_ce) (if r.(q_stream) then (-1)%Z else blen b) (b, E_EOF)).
   Proof.
-    intros Hc He Hin Hcu b Hb. unfold Model.e2e. rewrite identity_client_l by exact Hc. simpl. f_equal.
+    intros Hc He Hin Hcu b Hb. unfold e2e_rt. rewrite identity_client_l by exact Hc. simpl. f_equal.
     apply clookup_none in Hcu.
     exact (identity_server_l sc (plain r) He Hin Hcu Hb).
+  Qed.
+
+  (* ==== full chain: compressor ; headers round tripper ; wire ======================================= *)
+  Local Notation fclient := (Model.client enc).
+  Local Notation fe2e := (Model.e2e enc dec cdec).
+
+  Lemma on_wire_id cc r w : cc.(c_hdr) = None -> r.(q_raw) = [] -> on_wire cc r w = w.
+  Proof.
+    intros Hh Hr. destruct w as [ce b cl rw]. unfold on_wire, headers_rt. simpl.
+    now rewrite Hh, Hr, app_nil_r.
+  Qed.
+
+  Lemma fe2e_eq cc sc r w :
+    client cc r = CSent w -> on_wire cc r w = w -> fe2e cc sc r = e2e cc sc r.
+  Proof. intros H1 H2. unfold Model.e2e, Model.client, e2e_rt. now rewrite H1, H2. Qed.
+
+  Lemma fclient_plain_chain cc r : cc.(c_hdr) = None -> r.(q_raw) = [] -> fclient cc r = client cc r.
+  Proof.
+    intros Hh Hr. unfold Model.client. destruct (client cc r) as [| |w]; try reflexivity.
+    now rewrite on_wire_id.
+  Qed.
+
+  (* a configured Content-Encoding header replaces what the compressor (or the caller) put there:
+     the server sees exactly that value first, whatever was done to the body *)
+  Lemma configured_header_wins_l cc r w v :
+    cc.(c_hdr) = Some v -> fclient cc r = CSent w -> w.(w_ce) = v :: r.(q_raw).
+  Proof.
+    intros Hh. unfold Model.client. destruct (client cc r) as [| |w0]; try discriminate.
+    intros [= <-]. unfold on_wire, headers_rt. simpl. now rewrite Hh.
+  Qed.
+
+  (* ... and the body is whatever the compressor stage produced *)
+  Lemma chain_keeps_body_l cc r w :
+    fclient cc r = CSent w ->
+    exists w0, client cc r = CSent w0 /\ w.(w_body) = w0.(w_body) /\ w.(w_cl) = w0.(w_cl) /\
+               w.(w_rewind) = w0.(w_rewind) /\ w.(w_ce) = headers_rt cc w0.(w_ce) ++ r.(q_raw).
+  Proof.
+    unfold Model.client. destruct (client cc r) as [| |w0]; try discriminate.
+    intros [= <-]. exists w0. repeat split.
+  Qed.
+
+  (* a Content-Encoding set under a non-canonical spelling of the key is invisible to the compressor:
+     the body is compressed (again) and the receiver sees the compressor's value first *)
+  Lemma noncanonical_preset_recompressed_l cc r c :
+    client_validate cc = true -> is_compressed cc.(c_type) = true -> writer_codec cc.(c_type) = Some c ->
+    cc.(c_hdr) = None -> r.(q_ce) = [] -> body_ok r = true ->
+    let buf := enc c (writer_level c (effective_level cc.(c_level))) (body_bytes r.(q_body)) in
+    fclient cc r = CSent {| w_ce := cc.(c_type) :: r.(q_raw); w_body := buf; w_cl := blen buf; w_rewind := Some buf |}.
+  Proof.
+    intros Hv Hc Hw Hh Hce Hok buf.
+    assert (He : hget (q_ce r) = s_empty) by (rewrite Hce; reflexivity).
+    unfold Model.client. rewrite (client_compresses_l cc r c Hv Hc Hw He Hok). cbv zeta.
+    unfold on_wire, headers_rt. simpl. now rewrite Hh, Hce.
+  Qed.
+
+  Lemma preset_not_recompressed_full_l cc r w :
+    hget r.(q_ce) <> s_empty -> fclient cc r = CSent w ->
+    w = on_wire cc r (plain r) /\ w.(w_body) = body_bytes r.(q_body).
+  Proof.
+    intros Hp. unfold Model.client. destruct (client cc r) as [| |w0] eqn:E; try discriminate.
+    intros [= <-]. rewrite (preset_not_recompressed_l cc r w0 Hp E). split; reflexivity.
+  Qed.
+
+  Lemma client_body_error_full_l cc r c :
+    client_validate cc = true -> is_compressed cc.(c_type) = true -> writer_codec cc.(c_type) = Some c ->
+    hget r.(q_ce) = s_empty -> body_ok r = false -> fclient cc r = CError.
+  Proof.
+    intros Hv Hc Hw He Hb. unfold Model.client. now rewrite (client_body_error_l cc r c Hv Hc Hw He Hb).
+  Qed.
+
+  Lemma limit_holds_e2e_full_l cc sc r ce cl s :
+    fe2e cc sc r = Some (Handled ce cl s) -> (Z.of_nat (List.length (fst s)) <= eff_max sc)%Z.
+  Proof.
+    unfold Model.e2e. destruct (fclient cc r) as [| |w]; try discriminate.
+    intros [= H]. exact (limit_holds_l sc w ce cl s H).
+  Qed.
+
+  Lemma replay_same_request_full_l cc r w w' :
+    fclient cc r = CSent w -> replay w = Some w' -> w' = w.
+  Proof.
+    unfold Model.client. destruct (client cc r) as [| |w0] eqn:E; try discriminate.
+    intros [= <-]. unfold replay, on_wire. simpl.
+    destruct (w_rewind w0) as [b|] eqn:Er; [|discriminate]. intros [= <-].
+    assert (R : replay w0 = Some {| w_ce := w_ce w0; w_body := b; w_cl := w_cl w0; w_rewind := w_rewind w0 |})
+      by (unfold replay; now rewrite Er).
+    pose proof (replay_same_request_l cc r w0 _ E R) as Q.
+    assert (Hb : b = w_body w0) by (rewrite <- Q; reflexivity). now rewrite <- Hb.
+  Qed.
+
+  Lemma compressed_request_replayable_full_l cc r c w :
+    client_validate cc = true -> is_compressed cc.(c_type) = true -> writer_codec cc.(c_type) = Some c ->
+    hget r.(q_ce) = s_empty -> fclient cc r = CSent w -> replay w = Some w.
+  Proof.
+    intros Hv Hc Hw He. unfold Model.client. destruct (client cc r) as [| |w0] eqn:E; try discriminate.
+    intros [= <-]. pose proof (compressed_request_replayable_l cc r c w0 Hv Hc Hw He E) as Q.
+    unfold replay in *. simpl. destruct (w_rewind w0) as [b|]; [|discriminate].
+    injection Q as Q. unfold on_wire. simpl. f_equal. f_equal; rewrite <- Q; reflexivity.
+  Qed.
+
+  (* the hypothesis on the configured headers under which the round trip holds: none for
+     Content-Encoding, or the very name of the compression type *)
+  Definition hdr_compatible (cc : ccfg) : Prop := cc.(c_hdr) = None \/ cc.(c_hdr) = Some cc.(c_type).
+
+  Lemma roundtrip_full_l cc sc r c :
+    client_validate cc = true -> is_compressed cc.(c_type) = true -> writer_codec cc.(c_type) = Some c ->
+    hdr_compatible cc -> r.(q_ce) = [] -> r.(q_raw) = [] -> body_ok r = true ->
+    In cc.(c_type) (eff_algs sc) -> ~ In cc.(c_type) (map fst sc.(s_custom)) ->
+    let b := body_bytes r.(q_body) in
+    let wire := enc c (writer_level c (effective_level cc.(c_level))) b in
+    (Z.of_nat (List.length b) <= eff_max sc)%Z ->
+    (Z.of_nat (List.length wire) <= eff_max sc)%Z ->
+    exists w, fclient cc r = CSent w /\ replay w = Some w /\ server sc w = Handled [] (-1) (b, E_EOF).
+  Proof.
+    intros Hv Hc Hw Hh Hce Hr Hok Hin Hcu b wire Hb Hwire.
+    destruct (roundtrip_under_replay_l cc sc r c Hv Hc Hw Hce Hok Hin Hcu Hb Hwire) as [w [C [R S]]].
+    assert (He : hget (q_ce r) = s_empty) by (rewrite Hce; reflexivity).
+    pose proof (client_compresses_l cc r c Hv Hc Hw He Hok) as CL. cbv zeta in CL.
+    rewrite CL in C. injection C as <-.
+    assert (OW : on_wire cc r {| w_ce := q_ce r ++ [c_type cc];
+                                 w_body := enc c (writer_level c (effective_level (c_level cc))) (body_bytes (q_body r));
+                                 w_cl := blen (enc c (writer_level c (effective_level (c_level cc))) (body_bytes (q_body r)));
+                                 w_rewind := Some (enc c (writer_level c (effective_level (c_level cc))) (body_bytes (q_body r))) |}
+                 = {| w_ce := q_ce r ++ [c_type cc];
+                      w_body := enc c (writer_level c (effective_level (c_level cc))) (body_bytes (q_body r));
+                      w_cl := blen (enc c (writer_level c (effective_level (c_level cc))) (body_bytes (q_body r)));
+                      w_rewind := Some (enc c (writer_level c (effective_level (c_level cc))) (body_bytes (q_body r))) |}).
+    { unfold on_wire, headers_rt. simpl. rewrite Hr, Hce, app_nil_r. simpl.
+      destruct Hh as [-> | ->]; reflexivity. }
+    eexists. split; [unfold Model.client; rewrite CL, OW; reflexivity|]. split; [exact R|exact S].
+  Qed.
+
+  Lemma roundtrip_e2e_full_l cc sc r c :
+    client_validate cc = true -> is_compressed cc.(c_type) = true -> writer_codec cc.(c_type) = Some c ->
+    hdr_compatible cc -> r.(q_ce) = [] -> r.(q_raw) = [] -> body_ok r = true ->
+    In cc.(c_type) (eff_algs sc) -> ~ In cc.(c_type) (map fst sc.(s_custom)) ->
+    let b := body_bytes r.(q_body) in
+    let wire := enc c (writer_level c (effective_level cc.(c_level))) b in
+    (Z.of_nat (List.length b) <= eff_max sc)%Z ->
+    (Z.of_nat (List.length wire) <= eff_max sc)%Z ->
+    fe2e cc sc r = Some (Handled [] (-1) (b, E_EOF)).
+  Proof.
+    intros Hv Hc Hw Hh Hce Hr Hok Hin Hcu b wire Hb Hwire.
+    destruct (roundtrip_full_l cc sc r c Hv Hc Hw Hh Hce Hr Hok Hin Hcu Hb Hwire) as [w [C [_ S]]].
+    unfold Model.e2e. rewrite C. now rewrite S.
+  Qed.
+
+  Lemma roundtrip_default_full_l cc mx r :
+    type_known cc.(c_type) = true -> is_compressed cc.(c_type) = true -> client_validate cc = true ->
+    hdr_compatible cc -> r.(q_ce) = [] -> r.(q_raw) = [] -> body_ok r = true ->
+    let sc := {| s_max := mx; s_algs := None; s_custom := [] |} in
+    exists c : codec, writer_codec cc.(c_type) = Some c /\
+      (let b := body_bytes r.(q_body) in
+       let wire := enc c (writer_level c (effective_level cc.(c_level))) b in
+       ((Z.of_nat (List.length b) <= eff_max sc)%Z ->
+        (Z.of_nat (List.length wire) <= eff_max sc)%Z ->
+        fe2e cc sc r = Some (Handled [] (-1) (b, E_EOF)))).
+  Proof.
+    intros Hk Hc Hv Hh Hce Hr Hok sc. destruct (known_type_has_writer _ Hk Hc) as [c Hw].
+    exists c. split; [exact Hw|]. intros b wire Hb Hwire.
+    apply (roundtrip_e2e_full_l cc sc r c Hv Hc Hw Hh Hce Hr Hok); try assumption.
+    - unfold type_known in Hk. apply str_mem_In in Hk. simpl in Hk. simpl.
+      revert Hc.
+      destruct Hk as [<-|[<-|[<-|[<-|[<-|[<-|[<-|[<-|[]]]]]]]]]; intros Hc; try (vm_compute in Hc; discriminate Hc);
+        cbv [default_algs eff_algs s_algs sc In]; auto 12.
+    - simpl. tauto.
+  Qed.
+
+  Lemma identity_e2e_full_l cc sc r :
+    is_compressed cc.(c_type) = false -> cc.(c_hdr) = None -> r.(q_raw) = [] -> hget r.(q_ce) = s_empty ->
+    In s_empty (eff_algs sc) -> ~ In s_empty (map fst sc.(s_custom)) ->
+    let b := body_bytes r.(q_body) in
+    (Z.of_nat (List.length b) <= eff_max sc)%Z ->
+    fe2e cc sc r = Some (Handled r.(q_ce) (if r.(q_stream) then (-1)%Z else blen b) (b, E_EOF)).
+  Proof.
+    intros Hc Hh Hr He Hin Hcu b Hb.
+    rewrite (fe2e_eq cc sc r (plain r)); [exact (identity_e2e_l cc sc r Hc He Hin Hcu Hb) | now apply identity_client_l | now apply on_wire_id].
   Qed.
 
   (* ---- length abstraction --------------------------------------------------------------------------- *)
